@@ -1,6 +1,6 @@
 (* WinReStatic.v -- re-entering expose handlers, part 3(a): the screen invariant after a flush
    whose handlers call tickit_window_expose and the restacking functions only
-   (racts_static).  None of these calls changes the tree while the flush runs, so the render
+   (racts_static: no show, hide, close or destroy).  None of these calls changes the tree while the flush runs, so the render
    loop paints exactly what the plain flush paints; the calls only add damage, raise flags and
    queue restacks, and each of them keeps ScreenInv (expose_preserves,
    restack_queued_preserves): flush_re_establishes_static. *)
@@ -17,7 +17,12 @@ Local Strategy 1000 [rsfuel].
 
 Lemma run_act_fault cfg st a : r_fault (run_act cfg st a) = false -> r_fault st = false.
 Proof.
-  destruct a as [id r|id|id|k id]; cbn [run_act].
+  assert (Hclose : forall id, r_fault (win_close cfg st id) = false -> r_fault st = false).
+  { intros id. destruct (win_close_shape cfg st id) as [E|(X & (_ & HX & _) & [E|(y & r & E)])]; rewrite E.
+    - tauto.
+    - congruence.
+    - intros H. apply win_expose_fault in H. congruence. }
+  destruct a as [id r|id|id|k id|id|id]; cbn [run_act]; try apply Hclose.
   - apply win_expose_fault.
   - destruct (win_show_shape cfg st id) as [E|(X & y & ex & (_ & HX & _) & E & _)]; rewrite E; [tauto|].
     intros H. apply win_expose_fault in H. congruence.
@@ -67,14 +72,14 @@ Qed.
 (* the static class                                                                      *)
 
 Definition act_static (a : ract) : Prop :=
-  match a with RExpose _ _ | RRestack _ _ => True | RShow _ | RHide _ => False end.
+  match a with RExpose _ _ | RRestack _ _ => True | RShow _ | RHide _ | RClose _ | RDestroy _ => False end.
 
 Definition racts_static (racts : Z -> list ract) : Prop :=
   forall id a, In a (racts id) -> act_static a.
 
 Lemma run_act_static_tree cfg st a : act_static a -> r_tree (run_act cfg st a) = r_tree st.
 Proof.
-  destruct a as [id r|id|id|k id]; cbn [act_static run_act]; intros H; try contradiction.
+  destruct a as [id r|id|id|k id|id|id]; cbn [act_static run_act]; intros H; try contradiction.
   - apply win_expose_tree.
   - apply win_restack_tree.
 Qed.
@@ -95,7 +100,7 @@ Lemma run_act_static_sinv cfg app tm T0 s a :
   nonempty (w_rect (t_info T0)) -> act_static a ->
   SInv app tm T0 s -> r_fault (run_act cfg s a) = false -> SInv app tm T0 (run_act cfg s a).
 Proof.
-  intros Hr Ha (SI & Hu & Ht) Hf. destruct a as [id r|id|id|k id]; cbn [act_static run_act] in *; try contradiction.
+  intros Hr Ha (SI & Hu & Ht) Hf. destruct a as [id r|id|id|k id|id|id]; cbn [act_static run_act] in *; try contradiction.
   - destruct (expose_preserves app s tm id r SI Hu) as [A B].
     + intros _ _. rewrite Ht. exact Hr.
     + exact Hf.
